@@ -14,6 +14,8 @@ CHECKS = {
          'EXEC is one atomic step of the spec; every reply of concurrently running clients must be explained by the sequential spec in the logged execution order, so an interleaving inside EXEC, a lost slot or reordering is rejected.'),
  'C14': ('model_checking', 'TLC model checking of pub/sub (MC_PubSub: exactly-once per subscription, ack counts) + generated tests and seeded multi-client histories on the real server + TLC trace validation of every ack, PUBLISH count and push frame',
          'Every acknowledgement, PUBLISH count and push frame of the explored histories is matched against the per-subscriber inbox of the spec; a final quiesce requires that nothing owed is missing.'),
+ 'C05': ('model_checking', 'enumerated pipelines x segmentations written to the real server (each chunk a separate read via the loop-iteration hook), i-th reply paired with i-th request and with the server-side command log, TLC trace validation; TLC model checking of the transcribed parser for chunking independence (shared with C20)',
+         'For every explored (pipeline, segmentation) the sequence of reply frames read by an independent RESP reader is, request by request, what the spec allows and what the server computed; hostile bytes are placed in every argument position; protocol violations must be answered by an error.'),
 }
 NOT_YET = {}
 
